@@ -142,6 +142,13 @@ EXTRA5 = {'C01': ' In-place conj / transpose on trains with one ndarray object a
  'C11': ' ode.krylov under a strict floating-point / warnings environment.',
  'C15': ' User functions of a point that mix a coordinate with an axis-free reduction.',
  'C16': ' User functions of a point that mix a coordinate with an axis-free reduction (gram / kernel-based MANDy).'}
+EXTRA6 = {'C03': ' Partial sweeps with per-bond rank lists that do not bind.',
+ 'C13': ' qft / iqft on 17-128 qubits (finite entries, exact unitarity of every gate group from its cores); malformed returned trains are a violation.',
+ 'C14': ' The caller edits returned gradients / Hessians in place and asks the same object again.',
+ 'C15': ' The owner edits a transformed data tensor in place, later constructions follow.',
+ 'C17': ' Inputs compared again after the returned modes were edited in place.',
+ 'C18': ' A failing eigen-equation is attributed to an inaccurate numpy.linalg.eig result only if that is observed at the reduced-matrix hook (known finding).',
+ 'C20': ' Calls with warnings turned into errors.'}
 PRIMER = ' Three of four shards start with an unmonitored battery of library calls on float32 / complex64 / complex128 operands (process history).'
 for _k in TABLE:
-    TABLE[_k]['text'] = TABLE[_k]['text'] + EXTRA.get(_k, '') + EXTRA2.get(_k, '') + EXTRA3.get(_k, '') + EXTRA4.get(_k, '') + EXTRA5.get(_k, '') + PRIMER + COMMON
+    TABLE[_k]['text'] = TABLE[_k]['text'] + EXTRA.get(_k, '') + EXTRA2.get(_k, '') + EXTRA3.get(_k, '') + EXTRA4.get(_k, '') + EXTRA5.get(_k, '') + EXTRA6.get(_k, '') + PRIMER + COMMON
